@@ -125,6 +125,16 @@ impl<T> NetworkMessage<T> {
     }
 }
 
+#[cfg(feature = "verif")]
+impl<T> NetworkMessage<T> {
+    /// The elements inside the batch, for the verification observer.
+    pub(crate) fn verif_elements(&self) -> &[StreamElement<T>] {
+        match &self.data {
+            NetworkData::Batch(v) => v,
+        }
+    }
+}
+
 impl<T> IntoIterator for NetworkMessage<T> {
     type Item = StreamElement<T>;
 
